@@ -33,6 +33,13 @@ pub fn current_worker_ordinal() -> ThreadId {
     ordinal
 }
 
+/// Verification hook (only with `--cfg mmtk_verif`): make the calling (harness) thread act as the
+/// GC worker with the given ordinal for code that consults `current_worker_ordinal()`.
+#[cfg(mmtk_verif)]
+pub fn verif_set_worker_ordinal(ordinal: ThreadId) {
+    WORKER_ORDINAL.with(|x| x.store(ordinal, Ordering::SeqCst));
+}
+
 /// The struct has one instance per worker, but is shared between workers via the scheduler
 /// instance.  This structure is used for communication between workers, e.g. adding designated
 /// work packets, stealing work packets from other workers, and collecting per-worker statistics.
@@ -163,6 +170,8 @@ impl<VM: VMBinding> GCWorker<VM> {
             self.scheduler.work_buckets[bucket].add_prioritized(Box::new(work));
             return;
         }
+        #[cfg(mmtk_verif)]
+        self.verif_local_push(bucket, std::any::type_name_of_val(&work));
         self.local_work_buffer.push(Box::new(work));
     }
 
@@ -176,7 +185,23 @@ impl<VM: VMBinding> GCWorker<VM> {
             self.scheduler.work_buckets[bucket].add(work);
             return;
         }
+        #[cfg(mmtk_verif)]
+        self.verif_local_push(bucket, std::any::type_name_of_val(&work));
         self.local_work_buffer.push(Box::new(work));
+    }
+
+    /// Verification hook: a packet is about to be pushed to this worker's local deque.
+    #[cfg(mmtk_verif)]
+    fn verif_local_push(&self, bucket: WorkBucketStage, type_name: &str) {
+        use enum_map::Enum;
+        crate::verif::emit(|| {
+            format!(
+                "\"ev\":\"LocalPush\",\"w\":{},\"stage\":{},\"type\":\"{}\"",
+                self.ordinal,
+                bucket.into_usize() + 1,
+                super::work_bucket::verif_short_type(type_name)
+            )
+        });
     }
 
     /// Get the scheduler. There is only one scheduler per MMTk instance.
@@ -334,6 +359,8 @@ impl<VM: VMBinding> WorkerGroup<VM> {
         };
 
         let workers = self.create_workers(local_work_queues, mmtk);
+        #[cfg(mmtk_verif)]
+        crate::verif::emit(|| format!("\"ev\":\"InitialSpawn\",\"n\":{}", workers.len()));
         self.spawn(workers, tls);
 
         *state = Some(WorkerCreationState::Spawned);
@@ -347,6 +374,8 @@ impl<VM: VMBinding> WorkerGroup<VM> {
             panic!("GCWorker structs have not been created, yet.");
         };
 
+        #[cfg(mmtk_verif)]
+        crate::verif::emit(|| format!("\"ev\":\"Respawn\",\"n\":{}", workers.len()));
         self.spawn(workers, tls);
 
         *state = Some(WorkerCreationState::Spawned)
@@ -406,6 +435,8 @@ impl<VM: VMBinding> WorkerGroup<VM> {
     pub fn prepare_surrender_buffer(&self) {
         let mut state = self.state.lock().unwrap();
         assert!(matches!(*state, Some(WorkerCreationState::Spawned)));
+        #[cfg(mmtk_verif)]
+        crate::verif::emit(|| "\"ev\":\"PrepareSurrender\"".to_string());
 
         *state = Some(WorkerCreationState::Surrendered {
             workers: Vec::with_capacity(self.worker_count()),
@@ -421,6 +452,14 @@ impl<VM: VMBinding> WorkerGroup<VM> {
         };
         let ordinal = worker.ordinal;
         workers.push(worker);
+        #[cfg(mmtk_verif)]
+        crate::verif::emit(|| {
+            format!(
+                "\"ev\":\"Surrender\",\"w\":{},\"count\":{}",
+                ordinal,
+                workers.len()
+            )
+        });
         trace!(
             "Worker {} surrendered. ({}/{})",
             ordinal,
